@@ -92,6 +92,19 @@ class ReentrantRecorder(Recorder):
         return super().__call__(names)
 
 
+class _Raising:
+    """A label callback that fails on its k-th call (KeyError from a translation table)."""
+
+    def __init__(self, k):
+        self.k = k
+
+    def __call__(self, names):
+        self.k -= 1
+        if self.k <= 0:
+            raise KeyError(tuple(names))
+        return ' '.join(names)
+
+
 _UNSET = object()
 
 
@@ -426,6 +439,17 @@ def run_case(concepts, case, spec):
         COL.count('one_concept_lattices')
     if sl.n == 2:
         COL.count('two_concept_lattices')
+    if hash(gen.table_key(case)) % 3 == 0:
+        # the very first export of this lattice is cut short: its label callback raises after a few calls
+        # (an incomplete translation table); the exports that follow are complete all the same
+        boom = _Raising(1 + hash(gen.table_key(case)) % 4)
+        try:
+            with core.monitor_code():
+                lat.graphviz(make_object_label=boom, make_property_label=boom)
+        except core.CaseTimeout:
+            raise
+        except Exception:
+            COL.count('first_export_cut_short_by_a_raising_callback')
     g = call(lat.graphviz)
     if g is not RAISED:
         # the returned Digraph is the caller's to customise (highlight a node, add an edge, drop lines):
